@@ -22,7 +22,7 @@ def gen(rng, tier):
                     cs.append(Case("serde_fixed %s %d %s %s" % (cont, n, fmt, hx(p)), cls="fixed/%s/%s/%s" % (cont, fmt, "exact" if k == n else ("short" if k < n else "long")),
                                    expect=exp, meta={"why": "a %d-byte container decoded from %d bytes must %s" % (n, k, "succeed" if k == n else "fail, not pad or truncate")}))
     # TryFrom<&[u8]> and the key-pair slice decoders are strict as well
-    for cont, ns in (("stack", (8, 16, 24, 32, 64)), ("heap", (16, 32, 64)), ("locked", (16, 24, 32, 64)), ("lockedro", (16, 24, 32, 64))):
+    for cont, ns in (("stack", (8, 16, 24, 32, 64)), ("heap", (16, 32, 64)), ("locked", (16, 24, 32, 64)), ("lockedro", (16, 24, 32, 64)), ("heapval", (16, 24, 32, 64))):
         for n in ns:
             for k in range(0, 2 * n + 1):
                 p = rbytes(rng, k)
